@@ -311,7 +311,8 @@ theorem recip_ok (n : Nat) (P : PB) (h : WF n P) (p : Rat → Prop)
     recip n P = .ok ⟨P.right.reverse.map (1 / ·), P.left.reverse.map (1 / ·)⟩ := by
   have w := wf_map_anti n P h (1 / ·) p hpl hpr hg
   unfold recip
-  rw [hasZero_false _ (fun x hx => hne x (hpl x hx)), hasZero_false _ (fun x hx => hne x (hpr x hx))]
+  rw [straddlesZero_false_of_anti P p hpl hpr hg,
+    hasZero_false _ (fun x hx => hne x (hpl x hx)), hasZero_false _ (fun x hx => hne x (hpr x hx))]
   simp only [Bool.or_self, Bool.false_eq_true, if_false]
   exact mk_arr_le n _ _ w.lenL w.lenR w.sortedL w.sortedR w.le
 
